@@ -27,6 +27,7 @@ import warnings
 from vlib import symx
 from vlib.runner import main
 
+VERIF_ROOT = __import__("os").path.dirname(__import__("os").path.dirname(__import__("os").path.abspath(__file__)))
 PROPERTY = "C15"
 STUBS = [
     "file-system tracer around the real writer: cotengra.utils.open, os.mkdir/replace/rename/unlink/fsync are wrapped to record events (they still act on a real temporary directory)",
@@ -325,7 +326,7 @@ def run_item(item, rec):
 _WRITER = r"""
 import sys, os, warnings
 warnings.simplefilter("ignore")
-sys.path.insert(0, "/verif")
+sys.path.insert(0, __import__("os").environ["VERIF_ROOT"])
 import json
 from checks import c15
 item = json.loads(sys.argv[1]); d = sys.argv[2]; target_event = int(sys.argv[3]); k = int(sys.argv[4])
@@ -366,7 +367,7 @@ os._exit(0 if target_event >= len(tr.events) else 3)
 _READER = r"""
 import sys, warnings, json
 warnings.simplefilter("ignore")
-sys.path.insert(0, "/verif")
+sys.path.insert(0, __import__("os").environ["VERIF_ROOT"])
 from checks import c15
 item = json.loads(sys.argv[1])
 ok, detail = c15.reader_check(item, sys.argv[2])
@@ -387,7 +388,7 @@ def replay(v):
         opt.search(*OTHER)
         if item["case"] in ("overwrite", "improved"):
             opt.search(*QUERY)
-        env = dict(os.environ, PYTHONPATH="/verif")
+        env = dict(os.environ, PYTHONPATH=VERIF_ROOT, VERIF_ROOT=VERIF_ROOT)
         p = subprocess.run([sys.executable, "-W", "ignore", "-c", _WRITER, json.dumps(item), d, str(v["crash_event_index"]), str(v["bytes_written"])], capture_output=True, text=True, env=env, timeout=300)
         if p.returncode not in (17, 0):
             return False, f"writer process did not reach the crash point (exit {p.returncode}): {p.stderr[-300:]}"
